@@ -22,7 +22,7 @@ Verdict(tr) ==
       pongs == Times(SelectSeq(tr, LAMBDA x : IsEv(x, {"pong"})))
       closePos == Pos(tr, LAMBDA x : x.k = "wr" /\ Has(x, "op") /\ x.op = OpClose)
       closeBeforeReady == closePos # 0 /\ closePos < readyPos
-      appClosePos == Pos(tr, LAMBDA x : x.k = "call" /\ x.m = "close")
+      appClosePos == Pos(tr, LAMBDA x : IsCloseCall(x))
       Tc == IF closePos = 0 THEN -1 ELSE tr[closePos].t - T0
       \* the connection is "open" for automatic pings until the client starts closing or the run ends
       Topen == IF closePos # 0 /\ ~closeBeforeReady THEN Tc ELSE Tend
